@@ -267,6 +267,8 @@ def H_tiling(ctx, cfg):
         if type(e).__name__ in ("OutsideModel", "Inconclusive"):
             raise
         ctx.prove(not written, "error-raised-before-anything-is-written", detail=f"{type(e).__name__}: {e}")
+        refusal = (isinstance(e, ValueError) and "Unsupported combination of chunk sizes" in str(e)) or isinstance(e, NotImplementedError)
+        ctx.prove(refusal, "failure-is-the-tool's-refusal-of-the-pair-of-scales", detail=f"{type(e).__name__}: {e}")
         ctx.ok("raises-" + type(e).__name__)
         return
     (chunk, cc), = written
@@ -337,7 +339,8 @@ def replay(cfg, cex):
                 dp.compute_dyadic_downscaling(info, 0, ds, io, io)
             except Exception as e:
                 wrote = os.path.isdir(os.path.join(td, "b"))
-                return wrote, f"raised {type(e).__name__}: {e} (after writing: {wrote})"
+                refusal = (isinstance(e, ValueError) and "Unsupported combination of chunk sizes" in str(e)) or isinstance(e, NotImplementedError)
+                return wrote or not refusal, f"raised {type(e).__name__}: {e} (after writing: {wrote}; refusal of the pair of scales: {refusal})"
             ref = ds.downscale(vol, f)
             for x0 in range(0, nsz[0], new_cs[0]):
                 for y0 in range(0, nsz[1], new_cs[1]):
